@@ -684,3 +684,34 @@ Definition pc_run (ft : bool) (evs : list pcev) : pcs := fold_left (pc_step ft) 
    session is about to be declared dead by exitErr) *)
 Definition pc_covered (s : pcs) : bool :=
   in_queue s || in_sock s || got_close s || pc_dead s || pc_sockerr s.
+
+(* ------------------------------------------------------------------------------------------ *)
+(* Part 6: from the connection layer to the death of the session                                 *)
+(* ------------------------------------------------------------------------------------------ *)
+(* Session.Close (SClose of part 1, CloseCall/CloseStep of part 3) is reached from the control connection
+   through connEventHandler: handleEvent's dispatch (Model/EventConn.v handle_event, compared with the real
+   handleEvent by C18 and - for the hang-up masks - by this property's harness) calls onRemoteClose ->
+   Session.onRemoteClose -> exitErr -> Close.  onReadReady calls onRemoteClose only when read returns 0 (EOF);
+   on a read ERROR (ECONNRESET: the peer went away with bytes of OURS unread in its socket) it returns silently.
+   The fd is edge-triggered: the event that reports the end of the peer is reported once. *)
+From Shm Require Model.EventConn.
+
+Inductive readres := RdData | RdAgain | RdEOF | RdErr.   (* what the first read in onReadReady finds *)
+
+Definition has_call (c : EventConn.hcall) (l : list EventConn.hcall) : bool :=
+  existsb (fun x => match x, c with
+                    | EventConn.CRemoteClose, EventConn.CRemoteClose => true
+                    | EventConn.CReadReady, EventConn.CReadReady => true
+                    | EventConn.CWriteReady, EventConn.CWriteReady => true
+                    | _, _ => false end) l.
+
+(* does the handling of this one epoll event call onRemoteClose (and so Session.Close)? *)
+Definition closes_session_with (dispatch : EventConn.epev -> list EventConn.hcall) (e : EventConn.epev) (rr : readres) : bool :=
+  has_call EventConn.CRemoteClose (dispatch e)
+  || (has_call EventConn.CReadReady (dispatch e) && match rr with RdEOF => true | _ => false end).
+Definition closes_session := closes_session_with EventConn.handle_event.
+
+(* VARIANT (not the code): the hang-up test `RDHUP && !IN` ("drain first, onReadReady finds the EOF itself") *)
+Definition handle_event_in_first (e : EventConn.epev) : list EventConn.hcall :=
+  if EventConn.ev_rdhup e && negb (EventConn.ev_in e) then [EventConn.CRemoteClose]
+  else (if EventConn.ev_in e then [EventConn.CReadReady] else []) ++ (if EventConn.ev_out e then [EventConn.CWriteReady] else []).
